@@ -208,9 +208,20 @@ Theorem C14_call_log : forall ST init st,
 Proof. exact reach_call_ok. Qed.
 
 (* the interleaving search used for the tie's concurrent callers only builds runs *)
-Theorem C14_par_sound : forall ST fuel st pre post st',
-  g_par fuel ST st pre post = Some st' -> exists ls, grun ST st ls = Some st'.
+Theorem C14_par_sound : forall ST ok fuel st pre post st',
+  g_par fuel ST ok st pre post = Some st' -> (exists ls, grun ST st ls = Some st') /\ ok st' = true.
 Proof. exact g_par_sound. Qed.
+
+(* the specification system is an instance of the generic one: C14_transparent … apply to it *)
+Theorem C14_spec_is_generic : forall (D : schema) (ST : nat -> stmt) (ns : nat) (init : nat -> meta),
+  (forall s v v', mid_of D s v = mid_of D s v' -> cols_of D s v = cols_of D s v') ->
+  (forall s v, mid_of D s v <> []) ->
+  (forall s s', s_id (ST s) = s_id (ST s') -> s = s') ->
+  (forall s s', s_text (ST s) = s_text (ST s') -> s = s') ->
+  (forall s, meta_ok D s (init s)) ->
+  forall nodes ls st,
+  srun D ST ns (sinit init nodes) ls = Some st -> greach ST init (s_g st).
+Proof. exact srun_greach. Qed.
 
 (* Transparency end to end: from ANY reachable state of the specification system in which call c
    has its first EXECUTE in flight to a node that has evicted the statement (and still prepares its
@@ -570,7 +581,7 @@ Proof. vm_compute. repeat split; reflexivity. Qed.
 Example C14_ex_present :
   let an := mkAnn (fun _ => cA) (fun _ => Some [7;1]) (fun _ => false) in
   let an0 := mkAnn (fun _ => []) (fun _ => Some [7;1]) (fun _ => false) in
-  let fr rm sk := mkExec (f_id exF1) rm (f_values exF1) (f_cons exF1) (f_serial exF1) (f_page_size exF1)
+  let fr (rm : option bytes) (sk : bool) := mkExec (f_id exF1) rm (f_values exF1) (f_cons exF1) (f_serial exF1) (f_page_size exF1)
                          (f_paging exF1) (f_ts exF1) sk in
   present_ok an true (exArgs false) (fr (Some [7;1]) true) = true /\
   present_ok an true (exArgs false) (fr (Some [7;2]) true) = false /\
@@ -588,13 +599,13 @@ Proof. vm_compute. repeat split; reflexivity. Qed.
    same trace with the rows decoded with the announced columns is clean; with the extension a stale
    decode is reported OUTSIDE the class; a wrong presented id is reported *)
 Example C14_ex_stale_check :
-  let an b := mkAnn (fun _ => cA) (fun _ => if b then Some [7;1] else None) (fun _ => false) in
+  let an (b : bool) := mkAnn (fun _ => cA) (fun _ => if b then Some [7;1] else None) (fun _ => false) in
   let u := RUnprepared (s_id (exST 0)) in
   let prep := Q_prepare (s_text (exST 0)) in
   let fne := mk_exec_frame (exST 0) false (exArgs true) (exInit false 0) in
   let pB := RPrepared (s_id (exST 0)) (meta_of_cols None cB) in
   let rowsB := RRows (mkRows (RM_none 3) None 1 (p_cells payB)) in
-  let obs c := OB_rows c None None false in
+  let obs (c : list col) := OB_rows c None None false in
   let stale := [exX (Q_execute fne) u []; exX prep pB []; exX (Q_execute fne) rowsB cB] in
   stale_check exST 1 true (an false) 0 [TO_exec 0 false (exArgs true) stale (obs cA)] = [(0%nat, Some true)] /\
   stale_check exST 1 true (an false) 0 [TO_exec 0 false (exArgs true) stale (obs cB)] = [] /\
@@ -606,18 +617,19 @@ Example C14_ex_stale_check :
     [TO_exec 0 true (exArgs false) [exX (Q_execute exF1) exRowsA cA] exObsA] = [(0%nat, None)].
 Proof. vm_compute. repeat split; reflexivity. Qed.
 
-(* the interleaving search finds the schedule of the race history and rejects a wrong outcome *)
+(* the interleaving search finds the schedule of the race history that leaves the OLD id in the cell,
+   and rejects a wrong outcome *)
 Example C14_ex_par :
   let x0 := exX (Q_execute exF1) exRowsA cA in
   let x1 := exX (Q_execute exF1) (RRows (mkRows (RM_full (Some [7;2]) cB) None 1 (p_cells payB))) cB in
   let oB := OB_rows cB None (Some [[Some [0;0;0;2]; Some [104]; Some [0;0;0;0;0;0;0;3]]]) true in
   let p0 := mkP 0 true (exArgs false) false [x0] exObsA in
-  let p1 o := mkP 1 true (exArgs false) false [x1] o in
-  match g_par 40 exST (ginit (exInit true)) [] [p0; p1 oB] with
+  let p1 (o : obs_out) := mkP 1 true (exArgs false) false [x1] o in
+  match g_par 40 exST (fun g => obytes_eqb (m_id (g_cells g 0)) (Some [7;1])) (ginit (exInit true)) [] [p0; p1 oB] with
   | Some st => true
   | None => false
   end &&
-  match g_par 40 exST (ginit (exInit true)) [] [p0; p1 exObsA] with
+  match g_par 40 exST (fun _ => true) (ginit (exInit true)) [] [p0; p1 exObsA] with
   | Some _ => false
   | None => true
   end = true.
